@@ -284,9 +284,13 @@ fn solver_level(rep: &Reporter, prop: &str) -> (crate::bnb::Agg, Vec<Value>, boo
             mk("KP-4", variants_kp(), true, None),
             mk("KP-5", variants_kp(), true, Some(if th { 413_343 } else { 60_000 })),
             mk("KPB-6", variants_kp(), true, None),
+            // the complete 5-layer butterfly family under the weakened rule with bonus relaxation (width 1: the restricted
+            // diagram truncates what it records in the dominance store -- input of the known finding D13)
+            Plan { fam: family("TM-B5"), variants: variants_dom().into_iter().filter(|v| v.dom == crate::model::Dom::Weak && v.bonus && v.rank == crate::model::Rank::Asc).collect(), rotate: false,
+                   cfgs: Cfg::full(&[1]), mode: Mode::Plain, record: true, limit: None, par1: false },
         ],
     };
-    let deadline = Some(Instant::now() + Duration::from_secs(if th { 900 } else { 35 }));
+    let deadline = Some(Instant::now() + Duration::from_secs(cap_secs(if th { 900 } else { 35 })));
     run_plans(rep, &[prop], &plans, deadline)
 }
 
